@@ -296,17 +296,21 @@ func (ca CA) genRoot() (rootCert *x509.Certificate, rootKey crypto.Signer, err e
 	if err != nil {
 		return nil, nil, fmt.Errorf("encoding root certificate: %v", err)
 	}
-	err = ca.storage.Store(ca.ctx, ca.storageKeyRootCert(), rootCertPEM)
-	if err != nil {
-		return nil, nil, fmt.Errorf("saving root certificate: %v", err)
-	}
 	rootKeyPEM, err := certmagic.PEMEncodePrivateKey(rootKey)
 	if err != nil {
 		return nil, nil, fmt.Errorf("encoding root key: %v", err)
 	}
+	// store the key before the certificate: the presence of the certificate
+	// is what tells the next start-up that the root already exists, so if we
+	// are interrupted in between, the pair is simply generated again instead
+	// of leaving a certificate behind whose key can never be loaded
 	err = ca.storage.Store(ca.ctx, ca.storageKeyRootKey(), rootKeyPEM)
 	if err != nil {
 		return nil, nil, fmt.Errorf("saving root key: %v", err)
+	}
+	err = ca.storage.Store(ca.ctx, ca.storageKeyRootCert(), rootCertPEM)
+	if err != nil {
+		return nil, nil, fmt.Errorf("saving root certificate: %v", err)
 	}
 
 	return rootCert, rootKey, nil
@@ -358,17 +362,18 @@ func (ca CA) genIntermediate(rootCert *x509.Certificate, rootKey crypto.Signer) 
 	if err != nil {
 		return nil, nil, fmt.Errorf("encoding intermediate certificate: %v", err)
 	}
-	err = ca.storage.Store(ca.ctx, ca.storageKeyIntermediateCert(), interCertPEM)
-	if err != nil {
-		return nil, nil, fmt.Errorf("saving intermediate certificate: %v", err)
-	}
 	interKeyPEM, err := certmagic.PEMEncodePrivateKey(interKey)
 	if err != nil {
 		return nil, nil, fmt.Errorf("encoding intermediate key: %v", err)
 	}
+	// key first, then certificate (see genRoot)
 	err = ca.storage.Store(ca.ctx, ca.storageKeyIntermediateKey(), interKeyPEM)
 	if err != nil {
 		return nil, nil, fmt.Errorf("saving intermediate key: %v", err)
+	}
+	err = ca.storage.Store(ca.ctx, ca.storageKeyIntermediateCert(), interCertPEM)
+	if err != nil {
+		return nil, nil, fmt.Errorf("saving intermediate certificate: %v", err)
 	}
 
 	return interCert, interKey, nil
